@@ -1045,3 +1045,807 @@ Example C01_promoted_leaf_run :
   (match r with Ok q => Some (abs_ix st' (q_idx q)) | _ => None end, n', map (lookup st') [(0, 0); (0, 3); (1, 1)])
   = (Some [1; 3; 2], 3, [lookup HeapExamples.st0 (0, 0); lookup HeapExamples.st0 (0, 3); Some [VZ 30; VZ 10; VZ 5; VZ 20]]).
 Proof. exact PromoteExamples.lfP_run. Qed.
+
+(* 12. (wave 7) Proofs/HeapRefine4.v.
+       (a) Apply with a LIST of instructions.  op_apply runs the instructions one after the other, each on the frame
+           the previous one returned; Ops.apply is the fold of Ops.apply_instr.  The induction over the list is
+           parametric in the relation SL that links ONE heap instruction to ONE L0 instruction on a given state
+           (store, frame reference, its L0 reading); all it asks of SL is the single-step refinement (step_ok).  The
+           premise chain_link says: the head instruction is linked on the current state, and the tail is linked on
+           whatever state the head step returns (the run and the L0 step are named in the premise, so that it can be
+           discharged by computing them); nothing is asked of the remaining instructions once the frame carries an
+           error (CL_err) - an error frame passes through the rest of the chain unchanged on both sides. *)
+Require Import QF.Proofs.HeapRefine4.
+
+Theorem C01_refines_apply_chain env dec ut SL t hs is n st qf f :
+  step_ok env dec ut SL ->
+  ref_ok dec st qf -> abs1 dec st qf = Some f -> store_fresh t n st ->
+  chain_link env dec ut SL t n st qf f hs is ->
+  exists res n' st', run env t (op_apply hs qf) n st = (res, n', st') /\
+                     step_post dec (Ops.apply ut f is) t st res n' st'.
+Proof. exact (fun Hs => refines_apply_chain env dec ut SL Hs t hs is n st qf f). Qed.
+Print Assumptions C01_refines_apply_chain.
+
+(*     instr_link: one constructor per single-step theorem (C01_refines_apply0: func() T; C01_refines_apply0_colname;
+       C01_refines_with_row_nums: the counting closure; C01_refines_apply1; C01_refines_apply2; and the instruction
+       whose function has no usable type, which gives an error frame on both sides).  It satisfies step_ok, hence: *)
+Theorem C01_instr_link_step_ok env dec ut : dec_apply_ok dec -> step_ok env dec ut (instr_link env).
+Proof. exact (instr_link_step_ok env dec ut). Qed.
+Print Assumptions C01_instr_link_step_ok.
+
+Theorem C01_refines_apply_list env dec ut t hs is n st qf f :
+  dec_apply_ok dec ->
+  ref_ok dec st qf -> abs1 dec st qf = Some f -> store_fresh t n st ->
+  chain_link env dec ut (instr_link env) t n st qf f hs is ->
+  exists res n' st',
+    run env t (op_apply hs qf) n st = (res, n', st') /\ keeps st st' /\ store_fresh t n' st' /\
+    match res with
+    | Ok qf' => ref_ok dec st' qf' /\ exists f', Ops.apply ut f is = Ok f' /\ abs1 dec st' qf' = Some f'
+    | Panic => Ops.apply ut f is = Panic
+    | Fail => False
+    end.
+Proof. exact (fun Hd => refines_apply_list env dec ut Hd t hs is n st qf f). Qed.
+Print Assumptions C01_refines_apply_list.
+
+(*     FilteredApply with a list of instructions: any clause tree (C01_refines_clause_filter2), then the chain on the
+       struct copy that carries the filtered index, index restored. *)
+Theorem C01_refines_filtered_apply_list env dec mt ut SL t n st qf f c cl instrs is :
+  step_ok env dec ut SL ->
+  ref_ok dec st qf -> abs1 dec st qf = Some f -> store_fresh t n st ->
+  nonneg (seg_of st (q_idx qf)) ->
+  clause_rel2 env mt st (q_map qf) f c cl ->
+  (forall fq ff n1 st1, run env t (op_filter c qf) n st = (Ok fq, n1, st1) ->
+     keeps st st1 -> store_fresh t n1 st1 -> ref_ok dec st1 fq ->
+     Filter.frame_filter mt f cl = Ok ff -> abs1 dec st1 fq = Some ff -> q_err fq = false ->
+     chain_link env dec ut SL t n1 st1 (with_index qf (q_idx fq)) (Frame.with_ix f (Frame.ix ff)) instrs is) ->
+  exists res n' st',
+    run env t (op_filtered_apply c instrs qf) n st = (res, n', st') /\ keeps st st' /\
+    match res with
+    | Ok q' => ref_ok dec st' q' /\ exists r, Ops.filtered_apply mt ut f cl is = Ok r /\ abs1 dec st' q' = Some r
+    | Panic => Ops.filtered_apply mt ut f cl is = Panic
+    | Fail => False
+    end.
+Proof. exact (fun Hs => refines_filtered_apply_chain env dec mt ut SL Hs t n st qf f c cl instrs is). Qed.
+Print Assumptions C01_refines_filtered_apply_list.
+
+(*     the premises hold on the example frame for B := fn(A); C := fn(B) (the second instruction reads the column the
+       first one made), for a chain whose first instruction names a column that does not exist (error, the rest is
+       skipped), and for FilteredApply of the two instructions after the And / Not / Or tree hc1; both sides computed *)
+Example C01_chain_link_holds :
+  chain_link HeapExamples.env0 dec_std [] (instr_link HeapExamples.env0) 1 0 HeapExamples.st0 HeapExamples.qf0 RefineExamples.f0
+             [ApplyExamples.a1; ChainExamples.aB] [ChainExamples.i1; ChainExamples.i2] /\
+  chain_link HeapExamples.env0 dec_std [] (instr_link HeapExamples.env0) 1 0 HeapExamples.st0 HeapExamples.qf0 RefineExamples.f0
+             [ChainExamples.aZ; ApplyExamples.a1; ChainExamples.aB] [ChainExamples.iZ; ChainExamples.i1; ChainExamples.i2].
+Proof. exact (conj ChainExamples.chain_link_12 ChainExamples.chain_link_err). Qed.
+Example C01_chain_example :
+  (let '(r, _, st') := run HeapExamples.env0 1 (op_apply [ApplyExamples.a1; ChainExamples.aB] HeapExamples.qf0) 0 HeapExamples.st0 in
+   match r with Ok q => option_map Ok (abs1 dec_std st' q) | _ => None end)
+  = Some (Ops.apply [] RefineExamples.f0 [ChainExamples.i1; ChainExamples.i2]) /\
+  Ops.apply [] RefineExamples.f0 [ChainExamples.i1; ChainExamples.i2]
+  = Ok (Frame.mkFrame [(HeapExamples.nA, ApplyExamples.dA); (ChainExamples.nB, Frame.ICol [31; 11; 6; 21]%Z);
+                       (ChainExamples.nC, Frame.ICol [32; 12; 7; 22]%Z)] [0; 1; 3; 2] false).
+Proof. exact ChainExamples.chain_example. Qed.
+Example C01_chain_err_example :
+  (let '(r, _, st') := run HeapExamples.env0 1 (op_apply [ChainExamples.aZ; ApplyExamples.a1; ChainExamples.aB] HeapExamples.qf0) 0 HeapExamples.st0 in
+   match r with Ok q => option_map Ok (abs1 dec_std st' q) | _ => None end)
+  = Some (Ops.apply [] RefineExamples.f0 [ChainExamples.iZ; ChainExamples.i1; ChainExamples.i2]) /\
+  Ops.apply [] RefineExamples.f0 [ChainExamples.iZ; ChainExamples.i1; ChainExamples.i2] = Ok (Frame.with_err RefineExamples.f0).
+Proof. exact ChainExamples.chain_err_example. Qed.
+Example C01_filtered_chain_premise_holds :
+  forall fq ff n1 st1,
+    run HeapExamples.env0 1 (op_filter ClauseExamples.hc1 HeapExamples.qf0) 0 HeapExamples.st0 = (Ok fq, n1, st1) ->
+    keeps HeapExamples.st0 st1 -> store_fresh 1 n1 st1 -> ref_ok dec_std st1 fq ->
+    Filter.frame_filter [] RefineExamples.f0 ClauseExamples.c1 = Ok ff -> abs1 dec_std st1 fq = Some ff -> q_err fq = false ->
+    chain_link HeapExamples.env0 dec_std [] (instr_link HeapExamples.env0) 1 n1 st1 (with_index HeapExamples.qf0 (q_idx fq))
+               (Frame.with_ix RefineExamples.f0 (Frame.ix ff)) [ApplyExamples.a1; ChainExamples.aB] [ChainExamples.i1; ChainExamples.i2'].
+Proof. exact ChainExamples.filtered_chain_premise. Qed.
+Example C01_filtered_chain_example :
+  (let '(r, _, st') := run HeapExamples.env0 1 (op_filtered_apply ClauseExamples.hc1 [ApplyExamples.a1; ChainExamples.aB] HeapExamples.qf0) 0 HeapExamples.st0 in
+   match r with Ok q => option_map Ok (abs1 dec_std st' q) | _ => None end)
+  = Some (Ops.filtered_apply [] [] RefineExamples.f0 ClauseExamples.c1 [ChainExamples.i1; ChainExamples.i2']) /\
+  Ops.filtered_apply [] [] RefineExamples.f0 ClauseExamples.c1 [ChainExamples.i1; ChainExamples.i2']
+  = Ok (Frame.mkFrame [(HeapExamples.nA, ApplyExamples.dA); (ChainExamples.nB, Frame.ICol [0; 11; 6; 21]%Z);
+                       (ChainExamples.nC, Frame.ICol [0; 12; 7; 22]%Z)] [0; 1; 3; 2] false).
+Proof. exact ChainExamples.filtered_chain_example. Qed.
+
+(*     (b) Constants.  apply0 with an int / float64 / bool / *string / string constant (qframe.go, apply0): when the
+           index covers the column the column is built by New*Const - ONE fresh array of colLen cells, the index is
+           not read; otherwise the constant is first converted to a closure `func() T { return t }` and takes the
+           func() T path (zero everywhere, the constant at the rows of the index).  The executed heap instruction
+           FnConst carries no value (its array holds the zero value of the type): C01_refines_apply0_const_zero.  The
+           same program with the cell value v (apply0_constv v; equal to the executed one at v = zero_of rty,
+           C01_apply0_constv_zero) refines F0Const (cv tout v): C01_refines_apply0_constv.  The closure conversion IS
+           apply0 with a FnCall whose oracle answers the constant: C01_refines_apply0_const_closure (panic - an index
+           entry beyond the column - for panic).  Premise length (ix f) = / <> phys_len f: the case split of the code. *)
+Theorem C01_apply0_constv_zero a rty qf : i_fn a = FnConst rty -> apply0_constv (zero_of rty) a qf = apply0 a qf.
+Proof. exact (apply0_constv_zero a rty qf). Qed.
+Print Assumptions C01_apply0_constv_zero.
+
+Theorem C01_refines_apply0_constv env dec t n st qf f a v tout :
+  dec_apply_ok dec ->
+  ref_ok dec st qf -> abs1 dec st qf = Some f -> store_fresh t n st ->
+  i_fn a = FnConst (ty_of tout) -> tout <> Frame.TEnum -> i_name_ok a = Ops.check_name (i_dst a) ->
+  length (Frame.ix f) = Frame.phys_len f ->
+  exists qf' n' st',
+    run env t (apply0_constv v a qf) n st = (Ok qf', n', st') /\ keeps st st' /\ store_fresh t n' st' /\
+    ref_ok dec st' qf' /\
+    exists f', Ops.apply0 f (Ops.F0Const (cv tout v)) (i_dst a) = Ok f' /\ abs1 dec st' qf' = Some f'.
+Proof. exact (fun Hd => refines_apply0_constv env dec Hd t n st qf f a v tout). Qed.
+Print Assumptions C01_refines_apply0_constv.
+
+Theorem C01_refines_apply0_const_zero env dec t n st qf f a tout :
+  dec_apply_ok dec ->
+  ref_ok dec st qf -> abs1 dec st qf = Some f -> store_fresh t n st ->
+  i_fn a = FnConst (ty_of tout) -> tout <> Frame.TEnum -> i_name_ok a = Ops.check_name (i_dst a) ->
+  length (Frame.ix f) = Frame.phys_len f ->
+  exists qf' n' st',
+    run env t (apply0 a qf) n st = (Ok qf', n', st') /\ keeps st st' /\ store_fresh t n' st' /\
+    ref_ok dec st' qf' /\
+    exists f', Ops.apply0 f (Ops.F0Const (Ops.zero_cell tout)) (i_dst a) = Ok f' /\ abs1 dec st' qf' = Some f'.
+Proof. exact (fun Hd => refines_apply0_const_zero env dec Hd t n st qf f a tout). Qed.
+Print Assumptions C01_refines_apply0_const_zero.
+
+Theorem C01_refines_apply0_const_closure env dec t n st qf f a fn tout c :
+  dec_apply_ok dec ->
+  ref_ok dec st qf -> abs1 dec st qf = Some f -> store_fresh t n st ->
+  i_fn a = FnCall fn (ty_of tout) -> tout <> Frame.TEnum -> i_name_ok a = Ops.check_name (i_dst a) ->
+  cv tout (scalar (env fn [])) = c -> length (Frame.ix f) <> Frame.phys_len f ->
+  exists res n' st',
+    run env t (apply0 a qf) n st = (res, n', st') /\ keeps st st' /\ store_fresh t n' st' /\
+    match res with
+    | Ok qf' => ref_ok dec st' qf' /\
+                exists f', Ops.apply0 f (Ops.F0Const c) (i_dst a) = Ok f' /\ abs1 dec st' qf' = Some f'
+    | Panic => Ops.apply0 f (Ops.F0Const c) (i_dst a) = Panic
+    | Fail => False
+    end.
+Proof. exact (fun Hd => refines_apply0_const_closure env dec Hd t n st qf f a fn tout c). Qed.
+Print Assumptions C01_refines_apply0_const_closure.
+
+Example C01_const_zero_premises_hold :
+  ref_ok dec_std HeapExamples.st0 HeapExamples.qf0 /\ abs1 dec_std HeapExamples.st0 HeapExamples.qf0 = Some RefineExamples.f0 /\
+  store_fresh 1 0 HeapExamples.st0 /\
+  i_fn ConstExamples.aK = FnConst (ty_of Frame.TInt) /\ Frame.TInt <> Frame.TEnum /\
+  i_name_ok ConstExamples.aK = Ops.check_name (i_dst ConstExamples.aK) /\
+  length (Frame.ix RefineExamples.f0) = Frame.phys_len RefineExamples.f0.
+Proof. exact ConstExamples.const_zero_premises. Qed.
+Example C01_const_zero_example :
+  (let '(r, _, st') := run HeapExamples.env0 1 (apply0 ConstExamples.aK HeapExamples.qf0) 0 HeapExamples.st0 in
+   match r with Ok q => option_map Ok (abs1 dec_std st' q) | _ => None end)
+  = Some (Ops.apply0 RefineExamples.f0 (Ops.F0Const (Frame.CInt 0)) ConstExamples.nB) /\
+  Ops.apply0 RefineExamples.f0 (Ops.F0Const (Frame.CInt 0)) ConstExamples.nB
+  = Ok (Frame.mkFrame [(HeapExamples.nA, ApplyExamples.dA); (ConstExamples.nB, Frame.ICol [0; 0; 0; 0]%Z)] [0; 1; 3; 2] false).
+Proof. exact ConstExamples.const_zero_example. Qed.
+Example C01_constv_example :
+  (let '(r, _, st') := run HeapExamples.env0 1 (apply0_constv (VZ 7) ConstExamples.aK HeapExamples.qf0) 0 HeapExamples.st0 in
+   match r with Ok q => option_map Ok (abs1 dec_std st' q) | _ => None end)
+  = Some (Ops.apply0 RefineExamples.f0 (Ops.F0Const (Frame.CInt 7)) ConstExamples.nB) /\
+  Ops.apply0 RefineExamples.f0 (Ops.F0Const (Frame.CInt 7)) ConstExamples.nB
+  = Ok (Frame.mkFrame [(HeapExamples.nA, ApplyExamples.dA); (ConstExamples.nB, Frame.ICol [7; 7; 7; 7]%Z)] [0; 1; 3; 2] false).
+Proof. exact ConstExamples.constv_example. Qed.
+(* the slice [0, 3) of the example frame has 3 of the 4 rows; the oracle answers 7 on the empty argument list *)
+Example C01_const_closure_premises_hold :
+  ref_ok dec_std HeapExamples.st0 HeapExamples.sl0 /\ abs1 dec_std HeapExamples.st0 HeapExamples.sl0 = Some ConstExamples.fs /\
+  i_fn ConstExamples.aC = FnCall 1%N (ty_of Frame.TInt) /\ Frame.TInt <> Frame.TEnum /\
+  i_name_ok ConstExamples.aC = Ops.check_name (i_dst ConstExamples.aC) /\
+  cv Frame.TInt (scalar (HeapExamples.env0 1%N [])) = Frame.CInt 7 /\
+  length (Frame.ix ConstExamples.fs) <> Frame.phys_len ConstExamples.fs.
+Proof. exact ConstExamples.const_closure_premises. Qed.
+Example C01_const_closure_example :
+  (let '(r, _, st') := run HeapExamples.env0 1 (apply0 ConstExamples.aC HeapExamples.sl0) 0 HeapExamples.st0 in
+   match r with Ok q => option_map Ok (abs1 dec_std st' q) | _ => None end)
+  = Some (Ops.apply0 ConstExamples.fs (Ops.F0Const (Frame.CInt 7)) ConstExamples.nB) /\
+  Ops.apply0 ConstExamples.fs (Ops.F0Const (Frame.CInt 7)) ConstExamples.nB
+  = Ok (Frame.mkFrame [(HeapExamples.nA, ApplyExamples.dA); (ConstExamples.nB, Frame.ICol [7; 7; 0; 7]%Z)] [0; 1; 3] false).
+Proof. exact ConstExamples.const_closure_example. Qed.
+
+(*     (c) The built-in ToUpper.  scolumn.toUpper allocates the pointer array, the byte array and the upper-casing buffer
+           on EVERY call (C01_upper_s_arrays: three fresh arrays; the loop over the index writes pointers[i], appends to
+           the byte array - in place or into a larger fresh array - and lets strings.ToUpper write into / replace the
+           buffer; nothing else changes: keeps); an empty column is returned as it is.  ecolumn.toUpper rebuilds the
+           value table (fresh newValues, fresh oldToNew) and SHARES the rank array with the source column unless two
+           values merge, in which case the rank array is copied (C01_upper_e_arrays).  The heap level does not
+           interpret strings: how many bytes a row needs, what its upper-cased bytes are and whether values merge are
+           parameters of the instruction.  THE LINK (upper_s_link / upper_e_link) is therefore stated on the arrays:
+           the L0 column is a string / enum column and the decoder reads the arrays the heap program builds
+           (upper_pure: the final pointer and byte arrays) as the column Ops.s_to_upper / Ops.e_to_upper computes from
+           the upper-casing table, panic (index entry beyond the column) for panic.  Under it Apply(ToUpper) refines
+           Ops.apply1 with FBuiltin "ToUpper". *)
+Theorem C01_upper_s_arrays env t n st c need up qf :
+  in_bounds st (q_idx qf) -> parts_in_bounds st c -> store_fresh t n st -> col_len c <> 0 ->
+  exists res n' st',
+    run env t (upper_s need up c qf) n st = (res, n', st') /\ keeps st st' /\ store_fresh t n' st' /\
+    match res with
+    | Ok w => fst w = ty_string /\ Forall (in_bounds st') (snd w) /\
+              exists P D, map (seg_of st') (snd w) = [P; D] /\
+                          upper_pure st c up (map as_z (seg_of st (q_idx qf))) (repeat (VZ 0) (col_len c)) [] = Ok (P, D)
+    | Panic => upper_pure st c up (map as_z (seg_of st (q_idx qf))) (repeat (VZ 0) (col_len c)) [] = Panic
+    | Fail => False
+    end.
+Proof. exact (upper_s_spec env t n st c need up qf). Qed.
+Print Assumptions C01_upper_s_arrays.
+
+Theorem C01_upper_e_arrays env t n st c merged data values :
+  c_parts c = [data; values] -> parts_in_bounds st c -> store_fresh t n st ->
+  exists w n' st',
+    run env t (upper_e merged c) n st = (Ok w, n', st') /\ keeps st st' /\ store_fresh t n' st' /\
+    fst w = ty_enum /\ Forall (in_bounds st') (snd w) /\
+    map (seg_of st') (snd w) =
+    [if merged (seg_of st values) then map VZ (map as_z (seg_of st data)) else seg_of st data;
+     map scalar (seg_of st values)].
+Proof. exact (upper_e_spec env t n st c merged data values). Qed.
+Print Assumptions C01_upper_e_arrays.
+
+Theorem C01_refines_apply1_upper_s env dec ut t n st qf f a src need up :
+  dec_apply_ok dec ->
+  ref_ok dec st qf -> abs1 dec st qf = Some f -> store_fresh t n st ->
+  i_fn a = FnUpperS need up -> i_name_ok a = Ops.check_name (i_dst a) ->
+  (forall c d0, map_get (map_of st (q_map qf)) src = Some c -> Frame.lookup_col f src = Some d0 ->
+                upper_s_link dec ut st qf f c d0 up) ->
+  exists res n' st',
+    run env t (apply1 a src qf) n st = (res, n', st') /\ keeps st st' /\ store_fresh t n' st' /\
+    match res with
+    | Ok qf' => ref_ok dec st' qf' /\
+                exists f', Ops.apply1 ut f (Ops.FBuiltin Ops.name_ToUpper) (i_dst a) src = Ok f' /\ abs1 dec st' qf' = Some f'
+    | Panic => Ops.apply1 ut f (Ops.FBuiltin Ops.name_ToUpper) (i_dst a) src = Panic
+    | Fail => False
+    end.
+Proof. exact (fun Hd => refines_apply1_upper_s env dec Hd ut t n st qf f a src need up). Qed.
+Print Assumptions C01_refines_apply1_upper_s.
+
+Theorem C01_refines_apply1_upper_e env dec ut t n st qf f a src merged :
+  ref_ok dec st qf -> abs1 dec st qf = Some f -> store_fresh t n st ->
+  i_fn a = FnUpperE merged -> i_name_ok a = Ops.check_name (i_dst a) ->
+  (forall c d0, map_get (map_of st (q_map qf)) src = Some c -> Frame.lookup_col f src = Some d0 ->
+                upper_e_link dec ut st c d0 merged) ->
+  exists qf' n' st',
+    run env t (apply1 a src qf) n st = (Ok qf', n', st') /\ keeps st st' /\ store_fresh t n' st' /\
+    ref_ok dec st' qf' /\
+    exists f', Ops.apply1 ut f (Ops.FBuiltin Ops.name_ToUpper) (i_dst a) src = Ok f' /\ abs1 dec st' qf' = Some f'.
+Proof. exact (refines_apply1_upper_e env dec ut t n st qf f a src merged). Qed.
+Print Assumptions C01_refines_apply1_upper_e.
+
+(*     instr_link2 = instr_link + the constants + ToUpper; it satisfies step_ok, so C01_refines_apply_chain and
+       C01_refines_filtered_apply_list hold for chains over all these instruction kinds *)
+Theorem C01_instr_link2_step_ok env dec ut : dec_apply_ok dec -> step_ok env dec ut (instr_link2 env dec ut).
+Proof. exact (instr_link2_step_ok env dec ut). Qed.
+Print Assumptions C01_instr_link2_step_ok.
+
+(*     the links hold (dec_std) for a string column ["ab"; "c"] and for an enum column over the values ["A"; "B"]; both
+       sides computed; the string run makes 6 allocations and leaves every old array as it was; the enum result shares
+       the rank array (0, 3) with the source column and has a fresh value table *)
+Example C01_upper_s_premises_hold :
+  ref_ok dec_std UpperExamples.stS UpperExamples.qfS /\ abs1 dec_std UpperExamples.stS UpperExamples.qfS = Some UpperExamples.fS /\
+  store_fresh 1 0 UpperExamples.stS /\
+  i_fn UpperExamples.aU = FnUpperS UpperExamples.needS UpperExamples.upS /\
+  i_name_ok UpperExamples.aU = Ops.check_name (i_dst UpperExamples.aU) /\
+  (forall c d0, map_get (map_of UpperExamples.stS (q_map UpperExamples.qfS)) UpperExamples.nS = Some c ->
+                Frame.lookup_col UpperExamples.fS UpperExamples.nS = Some d0 ->
+                upper_s_link dec_std UpperExamples.utS UpperExamples.stS UpperExamples.qfS UpperExamples.fS c d0 UpperExamples.upS).
+Proof. exact UpperExamples.upper_s_premises. Qed.
+Example C01_upper_s_example :
+  (let '(r, _, st') := run HeapExamples.env0 1 (apply1 UpperExamples.aU UpperExamples.nS UpperExamples.qfS) 0 UpperExamples.stS in
+   match r with Ok q => option_map Ok (abs1 dec_std st' q) | _ => None end)
+  = Some (Ops.apply1 UpperExamples.utS UpperExamples.fS (Ops.FBuiltin Ops.name_ToUpper) UpperExamples.nU UpperExamples.nS) /\
+  Ops.apply1 UpperExamples.utS UpperExamples.fS (Ops.FBuiltin Ops.name_ToUpper) UpperExamples.nU UpperExamples.nS
+  = Ok (Frame.mkFrame [(UpperExamples.nS, Frame.SCol [Some [97%N; 98%N]; Some [99%N]]);
+                       (UpperExamples.nU, Frame.SCol [Some [65%N; 66%N]; Some [67%N]])] [0; 1] false).
+Proof. exact UpperExamples.upper_s_example. Qed.
+Example C01_upper_s_allocations :
+  let '(_, n', st') := run HeapExamples.env0 1 (apply1 UpperExamples.aU UpperExamples.nS UpperExamples.qfS) 0 UpperExamples.stS in
+  (n', map (lookup st') [(0, 0); (0, 1); (0, 2); (0, 3); (0, 4)])
+  = (6, map (lookup UpperExamples.stS) [(0, 0); (0, 1); (0, 2); (0, 3); (0, 4)]).
+Proof. exact UpperExamples.upper_s_allocations. Qed.
+Example C01_upper_e_premises_hold :
+  ref_ok dec_std UpperExamples.stE UpperExamples.qfE /\ abs1 dec_std UpperExamples.stE UpperExamples.qfE = Some UpperExamples.fE /\
+  store_fresh 1 0 UpperExamples.stE /\
+  i_fn UpperExamples.aE = FnUpperE (fun _ => false) /\ i_name_ok UpperExamples.aE = Ops.check_name (i_dst UpperExamples.aE) /\
+  (forall c d0, map_get (map_of UpperExamples.stE (q_map UpperExamples.qfE)) UpperExamples.nE = Some c ->
+                Frame.lookup_col UpperExamples.fE UpperExamples.nE = Some d0 ->
+                upper_e_link dec_std UpperExamples.utE UpperExamples.stE c d0 (fun _ => false)).
+Proof. exact UpperExamples.upper_e_premises. Qed.
+Example C01_upper_e_example :
+  (let '(r, _, st') := run HeapExamples.env0 1 (apply1 UpperExamples.aE UpperExamples.nE UpperExamples.qfE) 0 UpperExamples.stE in
+   match r with Ok q => option_map Ok (abs1 dec_std st' q) | _ => None end)
+  = Some (Ops.apply1 UpperExamples.utE UpperExamples.fE (Ops.FBuiltin Ops.name_ToUpper) UpperExamples.nU UpperExamples.nE) /\
+  (let '(r, _, st') := run HeapExamples.env0 1 (apply1 UpperExamples.aE UpperExamples.nE UpperExamples.qfE) 0 UpperExamples.stE in
+   match r with Ok q => map (fun c => map s_base (c_parts c)) (hdr_of st' (q_cols q)) | _ => [] end)
+  = [[(0, 3); (0, 4)]; [(0, 3); (1, 0)]].
+Proof. exact UpperExamples.upper_e_example. Qed.
+
+(*     (d) Leaves whose Column.Filter FAILS.  QFrame.filter returns qf.withErr(...) when the column of a leaf is unknown,
+           when its argument column is unknown, or when Column.Filter returns an error (unknown comparator, argument of
+           the wrong type: the flag lf_bad of the heap leaf; the promotions and the second mask have been allocated by
+           then).  The leaves before it in the batch have been evaluated (they may have panicked), the leaves after it
+           are not looked at.  leaf_link3 = leaf_link2, or: the heap leaf fails for one of these three reasons
+           (leaf_heap_bad) and the leaf step of Model/Filter.v answers with an error on every sub-index of the rows
+           (l0_fails).  A batch over such leaves is refined by QFrame.filter (error frame for error frame, panic for
+           panic), and so is every clause tree over them (clause_rel3 = the generic crel at leaf_link3; it contains
+           clause_rel2 and hence clause_rel); FilteredApply of such a tree followed by a chain of instructions. *)
+Theorem C01_leaf_link2_link3 env mt st0 m f hl l : leaf_link2 env mt st0 m f hl l -> leaf_link3 env mt st0 m f hl l.
+Proof. exact (leaf_link2_link3 env mt st0 m f hl l). Qed.
+Print Assumptions C01_leaf_link2_link3.
+
+(* the heap side alone: a failing leaf makes the leaf step return the error, touching nothing that existed *)
+Theorem C01_leaf_step_bad env t st0 qf b hl n st :
+  keeps st0 st -> store_fresh t n st -> map_of st (q_map qf) = map_of st0 (q_map qf) ->
+  leaf_heap_bad st0 (q_map qf) hl ->
+  exists n' st', run env t (leaf_step qf b hl) n st = (Fail, n', st') /\ keeps st0 st' /\ store_fresh t n' st'.
+Proof. exact (leaf_step_bad env t st0 qf b hl n st). Qed.
+Print Assumptions C01_leaf_step_bad.
+
+Theorem C01_refines_filter_leaves3 env dec mt t n st qf f i0 hls ls :
+  ref_ok dec st qf -> abs1 dec st qf = Some (Frame.with_ix f i0) -> incl i0 (Frame.ix f) ->
+  store_fresh t n st ->
+  Forall2 (leaf_link3 env mt st (q_map qf) f) hls ls ->
+  exists res n' st',
+    run env t (qf_filter hls qf) n st = (res, n', st') /\ keeps st st' /\ store_fresh t n' st' /\
+    match res with
+    | Ok qf' => ref_ok dec st' qf' /\ q_map qf' = q_map qf /\
+                (nonneg (seg_of st (q_idx qf)) -> nonneg (seg_of st' (q_idx qf'))) /\
+                exists f', Filter.filter_leaves mt (Frame.with_ix f i0) ls = Ok f' /\ abs1 dec st' qf' = Some f'
+    | Panic => Filter.filter_leaves mt (Frame.with_ix f i0) ls = Panic
+    | Fail => False
+    end.
+Proof. exact (refines_filter_leaves3 env dec mt t n st qf f i0 hls ls). Qed.
+Print Assumptions C01_refines_filter_leaves3.
+
+Theorem C01_clause_rel2_rel3 env mt st m f c cl : clause_rel2 env mt st m f c cl -> clause_rel3 env mt st m f c cl.
+Proof. exact (clause_rel2_rel3 env mt st m f c cl). Qed.
+Print Assumptions C01_clause_rel2_rel3.
+
+Theorem C01_refines_clause_filter3 env dec mt t n st qf f c cl :
+  ref_ok dec st qf -> abs1 dec st qf = Some f -> store_fresh t n st ->
+  nonneg (seg_of st (q_idx qf)) ->
+  clause_rel3 env mt st (q_map qf) f c cl ->
+  exists res n' st',
+    run env t (op_filter c qf) n st = (res, n', st') /\ keeps st st' /\ store_fresh t n' st' /\
+    match res with
+    | Ok qf' => ref_ok dec st' qf' /\ exists f', Filter.frame_filter mt f cl = Ok f' /\ abs1 dec st' qf' = Some f'
+    | Panic => Filter.frame_filter mt f cl = Panic
+    | Fail => False
+    end.
+Proof. exact (refines_clause_filter3 env dec mt t n st qf f c cl). Qed.
+Print Assumptions C01_refines_clause_filter3.
+
+Theorem C01_refines_filtered_apply_list3 env dec mt ut SL t n st qf f c cl instrs is :
+  step_ok env dec ut SL ->
+  ref_ok dec st qf -> abs1 dec st qf = Some f -> store_fresh t n st ->
+  nonneg (seg_of st (q_idx qf)) ->
+  clause_rel3 env mt st (q_map qf) f c cl ->
+  (forall fq ff n1 st1, run env t (op_filter c qf) n st = (Ok fq, n1, st1) ->
+     keeps st st1 -> store_fresh t n1 st1 -> ref_ok dec st1 fq ->
+     Filter.frame_filter mt f cl = Ok ff -> abs1 dec st1 fq = Some ff -> q_err fq = false ->
+     chain_link env dec ut SL t n1 st1 (with_index qf (q_idx fq)) (Frame.with_ix f (Frame.ix ff)) instrs is) ->
+  exists res n' st',
+    run env t (op_filtered_apply c instrs qf) n st = (res, n', st') /\ keeps st st' /\
+    match res with
+    | Ok q' => ref_ok dec st' q' /\ exists r, Ops.filtered_apply mt ut f cl is = Ok r /\ abs1 dec st' q' = Some r
+    | Panic => Ops.filtered_apply mt ut f cl is = Panic
+    | Fail => False
+    end.
+Proof. exact (fun Hs => refines_filtered_apply_chain3 env dec mt ut SL Hs t n st qf f c cl instrs is). Qed.
+Print Assumptions C01_refines_filtered_apply_list3.
+
+(*     the link holds for a leaf on a column Z that does not exist (and for its toggled twin under Not), for a leaf on
+       column A whose comparator is rejected, and for the good leaf A < 25; a batch [good; failing; good]; the trees
+       A < 25 AND (A < 25 OR Z < 25) (the Or batch fails on the narrowed frame) and NOT (Z < 25) OR A < 25; FilteredApply
+       of the latter: the error frame is returned and no instruction runs; both sides computed *)
+Example C01_leaf_link3_holds :
+  leaf_link3 HeapExamples.env0 [] HeapExamples.st0 (q_map HeapExamples.qf0) RefineExamples.f0 BadLeafExamples.lfZ BadLeafExamples.lZ /\
+  leaf_link3 HeapExamples.env0 [] HeapExamples.st0 (q_map HeapExamples.qf0) RefineExamples.f0
+             (toggle BadLeafExamples.lfZ) (Filter.invert_leaf BadLeafExamples.lZ) /\
+  leaf_link3 HeapExamples.env0 [] HeapExamples.st0 (q_map HeapExamples.qf0) RefineExamples.f0 BadLeafExamples.lfBad BadLeafExamples.lBad /\
+  Forall2 (leaf_link3 HeapExamples.env0 [] HeapExamples.st0 (q_map HeapExamples.qf0) RefineExamples.f0)
+          [HeapExamples.lfA; BadLeafExamples.lfBad; HeapExamples.lfA] [FilterExamples.l0A; BadLeafExamples.lBad; FilterExamples.l0A].
+Proof.
+  exact (conj BadLeafExamples.lfZ_link (conj BadLeafExamples.lfZ_not_link (conj BadLeafExamples.lfBad_link BadLeafExamples.batch_links))).
+Qed.
+Example C01_bad_batch_example :
+  (let '(r, _, st') := run HeapExamples.env0 1 (qf_filter [HeapExamples.lfA; BadLeafExamples.lfBad; HeapExamples.lfA] HeapExamples.qf0) 0 HeapExamples.st0 in
+   match r with Ok q => option_map Ok (abs1 dec_std st' q) | _ => None end)
+  = Some (Filter.filter_leaves [] RefineExamples.f0 [FilterExamples.l0A; BadLeafExamples.lBad; FilterExamples.l0A]) /\
+  Filter.filter_leaves [] RefineExamples.f0 [FilterExamples.l0A; BadLeafExamples.lBad; FilterExamples.l0A]
+  = Ok (Frame.with_err RefineExamples.f0).
+Proof. exact BadLeafExamples.batch_example. Qed.
+Example C01_clause_rel3_holds :
+  clause_rel3 HeapExamples.env0 [] HeapExamples.st0 (q_map HeapExamples.qf0) RefineExamples.f0 BadLeafExamples.hc5 BadLeafExamples.c5 /\
+  clause_rel3 HeapExamples.env0 [] HeapExamples.st0 (q_map HeapExamples.qf0) RefineExamples.f0 BadLeafExamples.hc6 BadLeafExamples.c6.
+Proof. exact (conj BadLeafExamples.clause_rel3_5 BadLeafExamples.clause_rel3_6). Qed.
+Example C01_clause3_example_5 :
+  (let '(r, _, st') := run HeapExamples.env0 1 (op_filter BadLeafExamples.hc5 HeapExamples.qf0) 0 HeapExamples.st0 in
+   match r with Ok q => option_map Ok (abs1 dec_std st' q) | _ => None end)
+  = Some (Filter.frame_filter [] RefineExamples.f0 BadLeafExamples.c5) /\
+  Filter.frame_filter [] RefineExamples.f0 BadLeafExamples.c5 = Ok (Frame.with_err (Frame.with_ix RefineExamples.f0 [1; 3; 2])).
+Proof. exact BadLeafExamples.clause_example_5. Qed.
+Example C01_clause3_example_6 :
+  (let '(r, _, st') := run HeapExamples.env0 1 (op_filter BadLeafExamples.hc6 HeapExamples.qf0) 0 HeapExamples.st0 in
+   match r with Ok q => option_map Ok (abs1 dec_std st' q) | _ => None end)
+  = Some (Filter.frame_filter [] RefineExamples.f0 BadLeafExamples.c6) /\
+  Filter.frame_filter [] RefineExamples.f0 BadLeafExamples.c6 = Ok (Frame.with_err RefineExamples.f0).
+Proof. exact BadLeafExamples.clause_example_6. Qed.
+Example C01_filtered_bad_example :
+  (let '(r, n', st') := run HeapExamples.env0 1 (op_filtered_apply BadLeafExamples.hc6 [ApplyExamples.a1] HeapExamples.qf0) 0 HeapExamples.st0 in
+   match r with Ok q => option_map Ok (abs1 dec_std st' q) | _ => None end)
+  = Some (Ops.filtered_apply [] [] RefineExamples.f0 BadLeafExamples.c6 [ChainExamples.i1]) /\
+  Ops.filtered_apply [] [] RefineExamples.f0 BadLeafExamples.c6 [ChainExamples.i1] = Ok (Frame.with_err RefineExamples.f0).
+Proof. exact BadLeafExamples.filtered_bad_example. Qed.
+
+(*     (e) Distinct.  grouper.Distinct allocates its hash table (and every larger table it grows into) and its result
+           index on every call.  The heap program (probe, table_place, grow_table, insert_entry, group_index,
+           grouper_distinct of Model/HeapOps.v) is simulated STEP BY STEP by the table of Model/Grouper.v: an entry array
+           reads as the list of slots (abs_slot), the first table has the size of newTable (C01_initial_size_pow), the
+           load test `len < 2 * count` is `loadFactor > 0.5`, linear probing with wrap-around is `(pos + 1) & mask`,
+           grow relocates every slot of the old array (the unoccupied ones too) into a fresh array of twice the size,
+           a new group writes ONE slot, an existing group writes nothing, the result index holds firstPos of every
+           occupied slot in slot order; fuel exhaustion is a panic on both sides.  THE LINK (premises of the table
+           theorem / key_link): every row of the index has its key cells, the hash the heap run uses (gp_hash) is the
+           uint32 cast of the L0 hash of the row, its key equality (gp_eq) is the L0 key equality.  Size premise:
+           4 * rows < 2^32 (Go computes table sizes in uint32).  Then QFrame.Distinct: error frame, empty index, unknown
+           column, all columns when none is named, the key columns looked up by name (C01_refines_distinct_with,
+           parametric in the L0 reading dst of grouper.Distinct), and, composed, against the executed
+           Aggregate.distinct (C01_refines_distinct).  Not covered: a row of the index outside a key column (both
+           sides panic). *)
+Theorem C01_initial_size_pow n :
+  N.of_nat (initial_size n) = (2 ^ Grouper.calculate_initial_size_exp (N.of_nat n))%N.
+Proof. exact (initial_size_pow n). Qed.
+Print Assumptions C01_initial_size_pow.
+
+Theorem C01_refines_grouper_distinct env t st0 cols gp eqb hash ixs ix n st :
+  Forall (parts_in_bounds st0) cols ->
+  (forall i, In i ixs -> exists ci, cells_val st0 cols i = Ok ci) ->
+  (forall i ci, In i ixs -> cells_val st0 cols i = Ok ci -> gp_hash gp i ci = Z.of_N (Grouper.u32 (hash (row i)))) ->
+  (forall i j ci cj, In i ixs -> In j ixs -> cells_val st0 cols i = Ok ci -> cells_val st0 cols j = Ok cj ->
+                     gp_eq gp i j ci cj = eqb (row i) (row j)) ->
+  (4 * N.of_nat (length ixs) < 2 ^ 32)%N ->
+  in_bounds st0 ix -> map as_z (seg_of st0 ix) = ixs -> keeps st0 st -> store_fresh t n st ->
+  exists res n' st',
+    run env t (grouper_distinct gp cols ix) n st = (res, n', st') /\ keeps st0 st' /\ store_fresh t n' st' /\
+    match Grouper.distinct_ids eqb hash (map row ixs) with
+    | Ok d => exists nix, res = Ok nix /\ in_bounds st' nix /\ abs_ix st' nix = d
+    | Panic => res = Panic
+    | Fail => False
+    end.
+Proof. exact (fun H1 H2 H3 H4 H5 => refines_grouper_distinct env t st0 cols gp eqb hash ixs H1 H2 H3 H4 H5 ix n st). Qed.
+Print Assumptions C01_refines_grouper_distinct.
+
+Theorem C01_refines_distinct_with env dec dst gp t n st qf f names :
+  ref_ok dec st qf -> abs1 dec st qf = Some f -> store_fresh t n st ->
+  (forall cols kcols,
+      run env t (lookup_cols (q_map qf) (match names with [] => Frame.col_names f | _ => names end)) n st = (Ok cols, n, st) ->
+      Aggregate.named_cols f (match names with [] => Frame.col_names f | _ => names end) = Ok kcols ->
+      Forall (parts_in_bounds st) cols ->
+      exists res n' st',
+        run env t (grouper_distinct gp cols (q_idx qf)) n st = (res, n', st') /\ keeps st st' /\ store_fresh t n' st' /\
+        match dst kcols (Frame.ix f) with
+        | Ok d => exists nix, res = Ok nix /\ in_bounds st' nix /\ abs_ix st' nix = d
+        | Panic => res = Panic
+        | Fail => False
+        end) ->
+  exists res n' st',
+    run env t (op_distinct gp names qf) n st = (res, n', st') /\ keeps st st' /\ store_fresh t n' st' /\
+    match res with
+    | Ok qf' => ref_ok dec st' qf' /\ exists f', Aggregate.distinct_with dst f names = Ok f' /\ abs1 dec st' qf' = Some f'
+    | Panic => Aggregate.distinct_with dst f names = Panic
+    | Fail => False
+    end.
+Proof. exact (refines_distinct_with env dec dst gp t n st qf f names). Qed.
+Print Assumptions C01_refines_distinct_with.
+
+Theorem C01_refines_distinct env dec memhash rnd nulleq gp t n st qf f names :
+  ref_ok dec st qf -> abs1 dec st qf = Some f -> store_fresh t n st ->
+  (4 * N.of_nat (length (Frame.ix f)) < 2 ^ 32)%N ->
+  (forall cols kcols,
+      run env t (lookup_cols (q_map qf) (match names with [] => Frame.col_names f | _ => names end)) n st = (Ok cols, n, st) ->
+      Aggregate.named_cols f (match names with [] => Frame.col_names f | _ => names end) = Ok kcols ->
+      key_link st cols kcols gp (Aggregate.key_eqb nulleq kcols) (Aggregate.key_hash memhash rnd nulleq kcols)
+               (map as_z (seg_of st (q_idx qf)))) ->
+  exists res n' st',
+    run env t (op_distinct gp names qf) n st = (res, n', st') /\ keeps st st' /\ store_fresh t n' st' /\
+    match res with
+    | Ok qf' => ref_ok dec st' qf' /\ exists f', Aggregate.distinct memhash rnd nulleq f names = Ok f' /\ abs1 dec st' qf' = Some f'
+    | Panic => Aggregate.distinct memhash rnd nulleq f names = Panic
+    | Fail => False
+    end.
+Proof. exact (refines_distinct env dec memhash rnd nulleq gp t n st qf f names). Qed.
+Print Assumptions C01_refines_distinct.
+
+(*     the premises hold for a frame with the int column A = [30; 10; 30; 5; 10] (hash = low byte of the value, equality =
+       equality of the values); both sides computed: one row per value, in the slot order 10, 5, 30 of the 8-slot table;
+       the run makes 2 allocations (table, result index) and leaves every old array as it was *)
+Example C01_distinct_premises_hold :
+  ref_ok dec_std DistinctExamples.stD DistinctExamples.qfD /\
+  abs1 dec_std DistinctExamples.stD DistinctExamples.qfD = Some DistinctExamples.fD /\ store_fresh 1 0 DistinctExamples.stD /\
+  (4 * N.of_nat (length (Frame.ix DistinctExamples.fD)) < 2 ^ 32)%N /\
+  (forall cols kcols,
+      run HeapExamples.env0 1 (lookup_cols (q_map DistinctExamples.qfD) [HeapExamples.nA]) 0 DistinctExamples.stD
+      = (Ok cols, 0, DistinctExamples.stD) ->
+      Aggregate.named_cols DistinctExamples.fD [HeapExamples.nA] = Ok kcols ->
+      key_link DistinctExamples.stD cols kcols DistinctExamples.gpD (Aggregate.key_eqb false kcols)
+               (Aggregate.key_hash DistinctExamples.memhashD DistinctExamples.rndD false kcols)
+               (map as_z (seg_of DistinctExamples.stD (q_idx DistinctExamples.qfD)))).
+Proof. exact DistinctExamples.distinct_premises. Qed.
+Example C01_distinct_example :
+  (let '(r, _, st') := run HeapExamples.env0 1 (op_distinct DistinctExamples.gpD [HeapExamples.nA] DistinctExamples.qfD) 0 DistinctExamples.stD in
+   match r with Ok q => option_map Ok (abs1 dec_std st' q) | _ => None end)
+  = Some (Aggregate.distinct DistinctExamples.memhashD DistinctExamples.rndD false DistinctExamples.fD [HeapExamples.nA]) /\
+  Aggregate.distinct DistinctExamples.memhashD DistinctExamples.rndD false DistinctExamples.fD [HeapExamples.nA]
+  = Ok (Frame.with_ix DistinctExamples.fD [1; 3; 0]).
+Proof. exact DistinctExamples.distinct_example. Qed.
+Example C01_distinct_allocations :
+  let '(_, n', st') := run HeapExamples.env0 1 (op_distinct DistinctExamples.gpD [HeapExamples.nA] DistinctExamples.qfD) 0 DistinctExamples.stD in
+  (n', map (lookup st') [(0, 0); (0, 1); (0, 2); (0, 3)]) = (2, map (lookup DistinctExamples.stD) [(0, 0); (0, 1); (0, 2); (0, 3)]).
+Proof. exact DistinctExamples.distinct_allocations. Qed.
+
+(*     (f) GroupBy.  As Distinct, but an occupied slot also owns the index slice of its group: nil while the group has
+           one member, index.Int{firstPos, i} (a fresh array) from the second member on, then append (in place or into a
+           larger fresh array).  A slot of the heap table therefore reads as an L0 slot THROUGH THE STORE (abs_slot_g);
+           the invariant of the simulation says that the group slices live in arrays the call allocated, pairwise
+           different and different from the table arrays (arr_inv), so that appending to one group touches neither the
+           other groups nor the table.  The result []index.Int holds, in slot order, the slice the slot owns or a
+           fresh one-element slice.  The grouper returned by QFrame.GroupBy shares the headers and the by-name map of the
+           frame (and, without key columns, its index: one group); it is well-formed (grouper_ok) and reads (abs_g) as
+           what Aggregate.group_by returns.  Same link and size premise as for Distinct. *)
+Theorem C01_refines_grouper_group_by env t st0 cols gp eqb hash ixs ix n st :
+  Forall (parts_in_bounds st0) cols ->
+  (forall i, In i ixs -> exists ci, cells_val st0 cols i = Ok ci) ->
+  (forall i ci, In i ixs -> cells_val st0 cols i = Ok ci -> gp_hash gp i ci = Z.of_N (Grouper.u32 (hash (row i)))) ->
+  (forall i j ci cj, In i ixs -> In j ixs -> cells_val st0 cols i = Ok ci -> cells_val st0 cols j = Ok cj ->
+                     gp_eq gp i j ci cj = eqb (row i) (row j)) ->
+  (4 * N.of_nat (length ixs) < 2 ^ 32)%N ->
+  in_bounds st0 ix -> map as_z (seg_of st0 ix) = ixs -> keeps st0 st -> store_fresh t n st ->
+  exists res n' st',
+    run env t (grouper_group_by gp cols ix) n st = (res, n', st') /\ keeps st0 st' /\ store_fresh t n' st' /\
+    match Grouper.group_ids eqb hash (map row ixs) with
+    | Ok gs => exists ind, res = Ok ind /\ in_bounds st' ind /\
+                           Forall (in_bounds st') (map as_slice (seg_of st' ind)) /\
+                           map (abs_ix st') (map as_slice (seg_of st' ind)) = gs
+    | Panic => res = Panic
+    | Fail => False
+    end.
+Proof. exact (fun H1 H2 H3 H4 H5 => refines_grouper_group_by env t st0 cols gp eqb hash ixs H1 H2 H3 H4 H5 ix n st). Qed.
+Print Assumptions C01_refines_grouper_group_by.
+
+Theorem C01_refines_group_by_with env dec grp gp t n st qf f names :
+  ref_ok dec st qf -> abs1 dec st qf = Some f -> store_fresh t n st ->
+  (forall cols kcols,
+      run env t (lookup_cols (q_map qf) names) n st = (Ok cols, n, st) ->
+      Aggregate.named_cols f names = Ok kcols ->
+      Forall (parts_in_bounds st) cols ->
+      exists res n' st',
+        run env t (grouper_group_by gp cols (q_idx qf)) n st = (res, n', st') /\ keeps st st' /\ store_fresh t n' st' /\
+        match grp kcols (Frame.ix f) with
+        | Ok gs => exists ind, res = Ok ind /\ in_bounds st' ind /\
+                               Forall (in_bounds st') (map as_slice (seg_of st' ind)) /\
+                               map (abs_ix st') (map as_slice (seg_of st' ind)) = gs
+        | Panic => res = Panic
+        | Fail => False
+        end) ->
+  exists res n' st',
+    run env t (op_group_by gp names qf) n st = (res, n', st') /\ keeps st st' /\ store_fresh t n' st' /\
+    match res with
+    | Ok g => grouper_ok dec st' g /\ exists G, Aggregate.group_by_with grp f names = Ok G /\ abs_g dec st' g = Some G
+    | Panic => Aggregate.group_by_with grp f names = Panic
+    | Fail => False
+    end.
+Proof. exact (refines_group_by_with env dec grp gp t n st qf f names). Qed.
+Print Assumptions C01_refines_group_by_with.
+
+Theorem C01_refines_group_by env dec memhash rnd nulleq gp t n st qf f names :
+  ref_ok dec st qf -> abs1 dec st qf = Some f -> store_fresh t n st ->
+  (4 * N.of_nat (length (Frame.ix f)) < 2 ^ 32)%N ->
+  (forall cols kcols,
+      run env t (lookup_cols (q_map qf) names) n st = (Ok cols, n, st) ->
+      Aggregate.named_cols f names = Ok kcols ->
+      key_link st cols kcols gp (Aggregate.key_eqb nulleq kcols) (Aggregate.key_hash memhash rnd nulleq kcols)
+               (map as_z (seg_of st (q_idx qf)))) ->
+  exists res n' st',
+    run env t (op_group_by gp names qf) n st = (res, n', st') /\ keeps st st' /\ store_fresh t n' st' /\
+    match res with
+    | Ok g => grouper_ok dec st' g /\
+              exists G, Aggregate.group_by memhash rnd nulleq f names = Ok G /\ abs_g dec st' g = Some G
+    | Panic => Aggregate.group_by memhash rnd nulleq f names = Panic
+    | Fail => False
+    end.
+Proof. exact (refines_group_by env dec memhash rnd nulleq gp t n st qf f names). Qed.
+Print Assumptions C01_refines_group_by.
+
+(*     on the frame of the Distinct example: the groups, in slot order, are 10 -> rows [1; 4], 5 -> [3], 30 -> [0; 2]; both
+       sides computed; without key columns the one group SHARES the index array of the frame *)
+Example C01_group_by_premises_hold :
+  ref_ok dec_std DistinctExamples.stD DistinctExamples.qfD /\
+  abs1 dec_std DistinctExamples.stD DistinctExamples.qfD = Some DistinctExamples.fD /\ store_fresh 1 0 DistinctExamples.stD /\
+  (4 * N.of_nat (length (Frame.ix DistinctExamples.fD)) < 2 ^ 32)%N /\
+  (forall cols kcols,
+      run HeapExamples.env0 1 (lookup_cols (q_map DistinctExamples.qfD) [HeapExamples.nA]) 0 DistinctExamples.stD
+      = (Ok cols, 0, DistinctExamples.stD) ->
+      Aggregate.named_cols DistinctExamples.fD [HeapExamples.nA] = Ok kcols ->
+      key_link DistinctExamples.stD cols kcols DistinctExamples.gpD (Aggregate.key_eqb false kcols)
+               (Aggregate.key_hash DistinctExamples.memhashD DistinctExamples.rndD false kcols)
+               (map as_z (seg_of DistinctExamples.stD (q_idx DistinctExamples.qfD)))).
+Proof. exact GroupByExamples.group_by_premises. Qed.
+Example C01_group_by_example :
+  (let '(r, _, st') := run HeapExamples.env0 1 (op_group_by DistinctExamples.gpD [HeapExamples.nA] DistinctExamples.qfD) 0 DistinctExamples.stD in
+   match r with Ok g => option_map Ok (abs_g dec_std st' g) | _ => None end)
+  = Some (Aggregate.group_by DistinctExamples.memhashD DistinctExamples.rndD false DistinctExamples.fD [HeapExamples.nA]) /\
+  Aggregate.group_by DistinctExamples.memhashD DistinctExamples.rndD false DistinctExamples.fD [HeapExamples.nA]
+  = Ok (Aggregate.mkGrouper [(HeapExamples.nA, Frame.ICol [30; 10; 30; 5; 10]%Z)] [HeapExamples.nA] [[1; 4]; [3]; [0; 2]] false).
+Proof. exact GroupByExamples.group_by_example. Qed.
+Example C01_group_by_all_example :
+  (let '(r, _, st') := run HeapExamples.env0 1 (op_group_by DistinctExamples.gpD [] DistinctExamples.qfD) 0 DistinctExamples.stD in
+   match r with Ok g => Some (abs_g dec_std st' g, map s_base (groups_of st' g)) | _ => None end)
+  = Some (match Aggregate.group_by DistinctExamples.memhashD DistinctExamples.rndD false DistinctExamples.fD [] with Ok G => Some G | _ => None end,
+          [s_base (q_idx DistinctExamples.qfD)]).
+Proof. exact GroupByExamples.group_by_all_example. Qed.
+
+(*     (g) A row of the index OUTSIDE a key column.  Distinct and GroupBy hash the rows of the index in order; such a row
+           panics when it is hashed - after the rows before it have been inserted and the table has possibly grown -,
+           the L0 model tests all rows first: both sides panic.  key_link_oob: the index is pre ++ bad :: rest, the link
+           of (e)/(f) holds on pre, the row bad has no key cells on the heap side and the key test of Model/Aggregate.v
+           panics. *)
+Theorem C01_refines_distinct_oob env dec memhash rnd nulleq gp t n st qf f names :
+  ref_ok dec st qf -> abs1 dec st qf = Some f -> store_fresh t n st ->
+  (4 * N.of_nat (length (Frame.ix f)) < 2 ^ 32)%N ->
+  (forall cols kcols,
+      run env t (lookup_cols (q_map qf) (match names with [] => Frame.col_names f | _ => names end)) n st = (Ok cols, n, st) ->
+      Aggregate.named_cols f (match names with [] => Frame.col_names f | _ => names end) = Ok kcols ->
+      key_link_oob st cols kcols gp (Aggregate.key_eqb nulleq kcols) (Aggregate.key_hash memhash rnd nulleq kcols)
+                   (map as_z (seg_of st (q_idx qf)))) ->
+  exists res n' st',
+    run env t (op_distinct gp names qf) n st = (res, n', st') /\ keeps st st' /\ store_fresh t n' st' /\
+    match res with
+    | Ok qf' => ref_ok dec st' qf' /\ exists f', Aggregate.distinct memhash rnd nulleq f names = Ok f' /\ abs1 dec st' qf' = Some f'
+    | Panic => Aggregate.distinct memhash rnd nulleq f names = Panic
+    | Fail => False
+    end.
+Proof. exact (refines_distinct_oob env dec memhash rnd nulleq gp t n st qf f names). Qed.
+Print Assumptions C01_refines_distinct_oob.
+
+Theorem C01_refines_group_by_oob env dec memhash rnd nulleq gp t n st qf f names :
+  ref_ok dec st qf -> abs1 dec st qf = Some f -> store_fresh t n st ->
+  (4 * N.of_nat (length (Frame.ix f)) < 2 ^ 32)%N ->
+  (forall cols kcols,
+      run env t (lookup_cols (q_map qf) names) n st = (Ok cols, n, st) ->
+      Aggregate.named_cols f names = Ok kcols ->
+      key_link_oob st cols kcols gp (Aggregate.key_eqb nulleq kcols) (Aggregate.key_hash memhash rnd nulleq kcols)
+                   (map as_z (seg_of st (q_idx qf)))) ->
+  exists res n' st',
+    run env t (op_group_by gp names qf) n st = (res, n', st') /\ keeps st st' /\ store_fresh t n' st' /\
+    match res with
+    | Ok g => grouper_ok dec st' g /\
+              exists G, Aggregate.group_by memhash rnd nulleq f names = Ok G /\ abs_g dec st' g = Some G
+    | Panic => Aggregate.group_by memhash rnd nulleq f names = Panic
+    | Fail => False
+    end.
+Proof. exact (refines_group_by_oob env dec memhash rnd nulleq gp t n st qf f names). Qed.
+Print Assumptions C01_refines_group_by_oob.
+
+(*     the premises hold for the index [0; 1; 7; 3] over the 5-row column A; all four computations panic *)
+Example C01_oob_premises_hold :
+  ref_ok dec_std OobExamples.stO OobExamples.qfO /\ abs1 dec_std OobExamples.stO OobExamples.qfO = Some OobExamples.fO /\
+  store_fresh 1 0 OobExamples.stO /\
+  (4 * N.of_nat (length (Frame.ix OobExamples.fO)) < 2 ^ 32)%N /\
+  (forall cols kcols,
+      run HeapExamples.env0 1 (lookup_cols (q_map OobExamples.qfO) [HeapExamples.nA]) 0 OobExamples.stO = (Ok cols, 0, OobExamples.stO) ->
+      Aggregate.named_cols OobExamples.fO [HeapExamples.nA] = Ok kcols ->
+      key_link_oob OobExamples.stO cols kcols DistinctExamples.gpD (Aggregate.key_eqb false kcols)
+                   (Aggregate.key_hash DistinctExamples.memhashD DistinctExamples.rndD false kcols)
+                   (map as_z (seg_of OobExamples.stO (q_idx OobExamples.qfO)))).
+Proof. exact OobExamples.oob_premises. Qed.
+Example C01_oob_example :
+  fst (fst (run HeapExamples.env0 1 (op_distinct DistinctExamples.gpD [HeapExamples.nA] OobExamples.qfO) 0 OobExamples.stO)) = Panic /\
+  Aggregate.distinct DistinctExamples.memhashD DistinctExamples.rndD false OobExamples.fO [HeapExamples.nA] = Panic /\
+  fst (fst (run HeapExamples.env0 1 (op_group_by DistinctExamples.gpD [HeapExamples.nA] OobExamples.qfO) 0 OobExamples.stO)) = Panic /\
+  Aggregate.group_by DistinctExamples.memhashD DistinctExamples.rndD false OobExamples.fO [HeapExamples.nA] = Panic.
+Proof. exact OobExamples.oob_example. Qed.
+
+(*     growth exercised: 12 rows with 8 different values - the 8-slot table grows to 16 slots at the sixth group, groups
+       gain members before and after the move; Distinct and GroupBy computed on both sides; the Distinct run makes 3
+       allocations (first table, second table, result index) *)
+Example C01_growth_example :
+  abs1 dec_std GrowthExamples.stG GrowthExamples.qfG = Some GrowthExamples.fG /\
+  (let '(r, _, st') := run HeapExamples.env0 1 (op_distinct DistinctExamples.gpD [HeapExamples.nA] GrowthExamples.qfG) 0 GrowthExamples.stG in
+   match r with Ok q => option_map Ok (abs1 dec_std st' q) | _ => None end)
+  = Some (Aggregate.distinct DistinctExamples.memhashD DistinctExamples.rndD false GrowthExamples.fG [HeapExamples.nA]) /\
+  Aggregate.distinct DistinctExamples.memhashD DistinctExamples.rndD false GrowthExamples.fG [HeapExamples.nA]
+  = Ok (Frame.with_ix GrowthExamples.fG [0; 1; 3; 4; 6; 7; 9; 11]) /\
+  (let '(r, _, st') := run HeapExamples.env0 1 (op_group_by DistinctExamples.gpD [HeapExamples.nA] GrowthExamples.qfG) 0 GrowthExamples.stG in
+   match r with Ok g => option_map Ok (abs_g dec_std st' g) | _ => None end)
+  = Some (Aggregate.group_by DistinctExamples.memhashD DistinctExamples.rndD false GrowthExamples.fG [HeapExamples.nA]) /\
+  Aggregate.group_by DistinctExamples.memhashD DistinctExamples.rndD false GrowthExamples.fG [HeapExamples.nA]
+  = Ok (Aggregate.mkGrouper [(HeapExamples.nA, Frame.ICol [1; 2; 1; 3; 4; 2; 5; 6; 1; 7; 6; 9]%Z)] [HeapExamples.nA]
+                            [[0; 2; 8]; [1; 5]; [3]; [4]; [6]; [7; 10]; [9]; [11]] false) /\
+  snd (fst (run HeapExamples.env0 1 (op_distinct DistinctExamples.gpD [HeapExamples.nA] GrowthExamples.qfG) 0 GrowthExamples.stG)) = 3.
+Proof. exact GrowthExamples.growth_example. Qed.
+
+(*     (h) Aggregate, the loops over the groups (NOT the whole operation: the assembly of the result frame - header slice
+           and by-name map built from scratch, the error exits - is not refined).  Column.Aggregate with the reusable
+           buffer of subsetWithBuf: for every group the buffer is kept when its capacity suffices and replaced by a
+           fresh array otherwise, the group's values are appended to buf[:0] (in place), the aggregation function - a
+           Call node - is applied to them and its answer is appended to the result array; buffers and result array are
+           allocations of the call, the column arrays and the group slices are only read.  C01_col_aggregate_arrays:
+           the result array holds agg_pure = the oracle's answers on the values of every group, in group order; it
+           panics iff a row of a group is outside the column.  Column.Subset (the key columns of the result):
+           C01_col_subset_arrays - fresh data array with the cells of the rows; string: a fresh copy of the byte
+           array as well; enum: the value table is SHARED with the source column. *)
+Theorem C01_col_aggregate_arrays env t n st c fn rty gs :
+  parts_in_bounds st c -> Forall (in_bounds st) gs -> store_fresh t n st ->
+  exists res n' st',
+    run env t (col_aggregate c fn rty gs) n st = (res, n', st') /\ keeps st st' /\ store_fresh t n' st' /\
+    match agg_pure env st c fn gs with
+    | Ok vals => exists d, res = Ok d /\ in_bounds st' d /\ seg_of st' d = vals
+    | Panic => res = Panic
+    | Fail => False
+    end.
+Proof. exact (col_aggregate_spec env t n st c fn rty gs). Qed.
+Print Assumptions C01_col_aggregate_arrays.
+
+Theorem C01_col_subset_arrays env t n st c ix :
+  parts_in_bounds st c -> in_bounds st ix -> store_fresh t n st ->
+  exists res n' st',
+    run env t (col_subset c ix) n st = (res, n', st') /\ keeps st st' /\ store_fresh t n' st' /\
+    match agg_vals_h st c (map as_z (seg_of st ix)) with
+    | Ok cells =>
+        exists c', res = Ok c' /\ c_name c' = c_name c /\ c_pos c' = c_pos c /\ c_ty c' = c_ty c /\
+                   Forall (in_bounds st') (c_parts c') /\
+                   map (seg_of st') (c_parts c') =
+                   cells :: match c_parts c with
+                            | [_; p2] => [if (c_ty c =? ty_string)%N then map san_z (seg_of st p2) else seg_of st p2]
+                            | _ => []
+                            end
+    | Panic => res = Panic
+    | Fail => False
+    end.
+Proof. exact (col_subset_spec env t n st c ix). Qed.
+Print Assumptions C01_col_subset_arrays.
+
+(*     two groups (rows [0; 1] and rows [3; 4]) over A = [30; 10; 30; 5; 10], callback = first value + 1: the result array
+       holds [31; 6]; 2 allocations (result, ONE buffer: the second group fits the buffer of the first); a Subset of rows
+       [1; 2; 3]: one fresh array *)
+Example C01_col_aggregate_premises_hold :
+  parts_in_bounds DistinctExamples.stD DistinctExamples.cD /\
+  Forall (in_bounds DistinctExamples.stD) [AggLoopExamples.g1; AggLoopExamples.g2] /\ store_fresh 1 0 DistinctExamples.stD /\
+  agg_pure HeapExamples.env0 DistinctExamples.stD DistinctExamples.cD 1%N [AggLoopExamples.g1; AggLoopExamples.g2] = Ok [VZ 31; VZ 6].
+Proof. exact AggLoopExamples.col_aggregate_premises. Qed.
+Example C01_col_aggregate_example :
+  (let '(r, n', st') := run HeapExamples.env0 1 (col_aggregate DistinctExamples.cD 1%N 0%N [AggLoopExamples.g1; AggLoopExamples.g2]) 0 DistinctExamples.stD in
+   (match r with Ok d => Some (seg_of st' d) | _ => None end, n', map (lookup st') [(0, 0); (0, 3)]))
+  = (Some [VZ 31; VZ 6], 2, map (lookup DistinctExamples.stD) [(0, 0); (0, 3)]).
+Proof. exact AggLoopExamples.col_aggregate_example. Qed.
+Example C01_col_subset_example :
+  agg_vals_h DistinctExamples.stD DistinctExamples.cD (map as_z (seg_of DistinctExamples.stD (mkSlice (0, 0) 1 3 4))) = Ok [VZ 10; VZ 30; VZ 5] /\
+  (let '(r, n', st') := run HeapExamples.env0 1 (col_subset DistinctExamples.cD (mkSlice (0, 0) 1 3 4)) 0 DistinctExamples.stD in
+   (match r with Ok c' => Some (map (seg_of st') (c_parts c')) | _ => None end, n'))
+  = (Some [[VZ 10; VZ 30; VZ 5]], 1).
+Proof. exact AggLoopExamples.col_subset_example. Qed.
+
+(*     (i) Eval, PARTIAL: the sequence of operations.  Expression execution is a sequence of single-instruction Applies on
+           temporary columns, Drops of temporaries and error exits, followed by Copy(dst, col) and possibly Drop(col);
+           op_eval runs such a sequence, Model/Eval.v runs the same vocabulary (Ops.apply with one instruction, Ops.drop,
+           with_err, Ops.copy) while it walks the expression.  Theorem: op_eval of a step list refines the fold of the
+           corresponding L0 steps (l0_eval_steps), every step on the state the previous one returned (esteps_link, in
+           the style of chain_link; the Apply steps through any SL with step_ok).  NOT shown: that Eval.eval of an
+           expression IS such a fold (the names of the temporaries depend on the intermediate frames). *)
+Theorem C01_refines_eval_steps_partial env dec ut SL t n st qf f steps ls name_ok dst colname drop_tmp :
+  step_ok env dec ut SL ->
+  ref_ok dec st qf -> abs1 dec st qf = Some f -> store_fresh t n st ->
+  name_ok = Ops.check_name dst ->
+  esteps_link env dec ut SL t n st qf f steps ls ->
+  exists res n' st',
+    run env t (op_eval steps name_ok dst colname drop_tmp qf) n st = (res, n', st') /\
+    step_post dec (l0_eval_steps ut f ls dst colname drop_tmp) t st res n' st'.
+Proof. exact (fun Hs => refines_eval_steps env dec ut SL Hs t n st qf f steps ls name_ok dst colname drop_tmp). Qed.
+Print Assumptions C01_refines_eval_steps_partial.
+
+(*     D := fn(fn(A)) as Eval runs it (temp B := fn(A); temp C := fn(B); drop B; copy C to D; drop C): premise and both
+       sides computed *)
+Example C01_esteps_link_holds :
+  esteps_link HeapExamples.env0 dec_std [] (instr_link HeapExamples.env0) 1 0 HeapExamples.st0 HeapExamples.qf0 RefineExamples.f0
+              EvalExamples.hsteps EvalExamples.lsteps.
+Proof. exact EvalExamples.esteps_link_example. Qed.
+Example C01_eval_steps_example :
+  (let '(r, _, st') := run HeapExamples.env0 1 (op_eval EvalExamples.hsteps true EvalExamples.nD ChainExamples.nC true HeapExamples.qf0) 0 HeapExamples.st0 in
+   match r with Ok q => option_map Ok (abs1 dec_std st' q) | _ => None end)
+  = Some (l0_eval_steps [] RefineExamples.f0 EvalExamples.lsteps EvalExamples.nD ChainExamples.nC true) /\
+  l0_eval_steps [] RefineExamples.f0 EvalExamples.lsteps EvalExamples.nD ChainExamples.nC true
+  = Ok (Frame.mkFrame [(HeapExamples.nA, ApplyExamples.dA); (EvalExamples.nD, Frame.ICol [32; 12; 7; 22]%Z)] [0; 1; 3; 2] false).
+Proof. exact EvalExamples.eval_steps_example. Qed.
